@@ -77,8 +77,15 @@ func register(id string, r Rule) {
 	}
 }
 
+// evalTrace, when non-nil, collects the evaluators created while a harness runs (the map-order rule reads their
+// sort calls afterwards).
+var evalTrace *[]*eval.Evaluator
+
 func newEval(c *core.Ctx) *eval.Evaluator {
 	ev := eval.New(c.Fset, c.FuncDecl)
+	if evalTrace != nil {
+		*evalTrace = append(*evalTrace, ev)
+	}
 	ev.VarInit = c.VarInit
 	ev.Adapt = func(fn *types.Func, args []eval.Value) ([]eval.Value, error) { return adaptArgs(c, fn, args) }
 	return ev
